@@ -6,6 +6,8 @@ mod binrun;
 mod engine;
 mod field;
 mod gen;
+mod irmatch;
+mod obs;
 mod props;
 
 use engine::*;
@@ -33,6 +35,25 @@ fn main() {
             }
             println!("// ---- {kind} #{k}");
             println!("{}", props::gen_debug(kind, &tape));
+        }
+        return;
+    }
+    if id == "SSA" {
+        // debug: vcheck SSA <file with one definition> — print the CFG before and after SSA
+        let src = std::fs::read_to_string(&args[1]).expect("read");
+        match obs::lift_def(&src, &program_structure::constants::Curve::Bn254) {
+            Ok(l) => {
+                println!("--- CFG\n{:?}", l.cfg);
+                for r in &l.reports {
+                    println!("report {} {}", r.id(), r.message());
+                }
+                match obs::to_ssa(l.cfg) {
+                    Ok(ssa) => println!("--- SSA\n{ssa:?}"),
+                    Err(obs::SsaFail::Error(r)) => println!("SSA error: {}", r.message()),
+                    Err(obs::SsaFail::Panic(p)) => println!("SSA panic: {p}"),
+                }
+            }
+            Err(e) => println!("lift failed: {}", e.describe()),
         }
         return;
     }
